@@ -574,6 +574,33 @@ func (e *env) timeouts() {
 			}(step)
 		}
 	}
+	// a client that never goes silent but never finishes either: its ClientHello arrives one byte every T/5
+	// (after seeded change C11-M, where the handshake budget had become a per-read inactivity timeout)
+	for rep := 0; rep < run.Pick(3, 6); rep++ {
+		wg.Add(1)
+		go func(rep int) {
+			defer wg.Done()
+			dialAt := time.Now()
+			c, err := dialTCP(e.px.Addr)
+			if err != nil {
+				return
+			}
+			from := time.Now()
+			h := &hello.Hello{LegacyVersion: 0x0303, Compression: []byte{0}, Random: make([]byte, 32), SessionID: make([]byte, 32), Ciphers: []uint16{0xc02f, 0x009c, 0x1301, 0x1302, 0x1303, 0xc02b, 0xc030},
+				Exts: []hello.Ext{hello.SupportedGroups(29, 23, 24), hello.PointFormats(0), hello.SigAlgs(0x0804, 0x0401, 0x0403, 0x0805, 0x0501), hello.ALPN("h2", "http/1.1")}}
+			rec := h.Record()
+			go func() {
+				for i := range rec {
+					if _, err := c.Write(rec[i : i+1]); err != nil {
+						return
+					}
+					time.Sleep(e.th / 5)
+				}
+			}()
+			run.Add("trickled_handshakes", 1)
+			add(&obs{sc: scen{Kind: "handshake-timeout", Step: fmt.Sprintf("trickled-clienthello (%d bytes, one every %v)", len(rec), e.th/5), Env: e.name}, T: e.th, from: from, lo: dialAt, ac: e.find(c.LocalAddr(), dialAt, W), c: c})
+		}(rep)
+	}
 	// HTTP/2 clients that finish the handshake and then stay silent before / inside / after the client
 	// preface: the two fixed upstream timers (10 s preface, 2 s first SETTINGS) must cut them, and
 	// everything serving them must end (the client never leaves by itself)
